@@ -30,6 +30,7 @@ namespace smt
     /**
      * @brief Analyzes the current conflict and backjumps to the proper decision level.
      */
+    void backtrack_to_conflict() noexcept; // pops the decision levels, if any, above the highest one involved in the current conflict..
     void analyze_and_backjump() noexcept;
     /**
      * @brief Asks the theory to perform propagation after the given literal has been assigned. Returns true if the propagation succeeds or false if an inconsistency is found. In case of inconsistency, the confl vector must be filled with the conflicting constraint.
